@@ -90,7 +90,7 @@ class C09:
     id = "C09"
     level = "exploration"
     variants = ("fast", "asan")
-    rule = ("all sequences of length <= 3 (quick: from two of four start states, <= 2 from the others; thorough: <= 3, <= 4 from the initial state) over an alphabet of %d concrete calls (typed setters at "
+    rule = ("all sequences of length <= 3 (quick: from the initial state, <= 2 from three parsed states; thorough: <= 3, <= 4 from the initial state) over an alphabet of %d concrete calls (typed setters at "
             "indices 0/1/size/beyond on scalars, lists, nested and missing options and wrong types; setlist/addlist with 0-3 "
             "values; setmulti; addtsec new/existing; rmnsec/rmtsec/rmsec present/missing) from the initial state and three "
             "parsed states, plus Hypothesis sequences up to length 30. Oracle: abstract store model; after every call the "
@@ -187,7 +187,7 @@ class C09:
         subs = []
         for start in STARTS:
             # quick: depth 3 from the initial and the first parsed state, depth 2 from the others; thorough: depth 3 (4 from init)
-            depth = 3 if (r.tier == "thorough" or start in ("init", "parsed-a")) else 2
+            depth = 3 if (r.tier == "thorough" or start == "init") else 2
             if r.tier == "thorough" and start == "init":
                 depth = 4
             for d in range(1, depth + 1):
